@@ -576,15 +576,17 @@ def gen_string(rng, name):
         else:
             d = {"text": "616263", "ascii": False, "wide": False, "nocase": False, "fullword": False, "xor": None,
                  "b64": None}
-        if d["ascii"] and d["wide"] and d["fullword"] and "00" in [d["text"][i:i + 2] for i in range(0, len(d["text"]), 2)]:
-            # `ascii wide fullword` and a text with NULs: where the ascii form is a prefix of the wide form libyara
-            # verifies the ascii form first and, when its delimiter test fails, never tries the wide form
-            # (corpus/C07/quirk_ascii_prefix_of_wide.json): not generated
-            d["fullword"] = False
         if d["xor"] is not None and d["wide"] and not d["ascii"]:
             # libyara also accepts the xored *ascii* form of a wide-only xor string when an atom of the wide form
             # happens to hit (its verification tries the ascii comparison whatever the modifiers): not generated
             d["ascii"] = True
+        # (after the line above, which can turn a wide-only string into an ascii wide one)
+        if d["ascii"] and d["wide"] and d["fullword"] and "00" in [d["text"][i:i + 2] for i in range(0, len(d["text"]), 2)]:
+            # `ascii wide fullword` and a text with NULs: where one form is a prefix of the other at the same offset
+            # libyara verifies one form only (ascii first; for xor strings the wide form first) and, when its delimiter
+            # test fails, never tries the other (corpus/C07/quirk_ascii_prefix_of_wide.json, quirk_xor_wide_first_fullword.json):
+            # not generated
+            d["fullword"] = False
         if d["xor"] is not None and d["xor"][1] - d["xor"][0] > 40 and (rng.chance(2, 3) or len(d["text"]) < 6):
             # (texts shorter than 3 bytes under a wide key range match almost everywhere: half a minute of vm_compute)
             d["xor"] = [d["xor"][0], d["xor"][0] + rng.range(0, 8)]
